@@ -88,3 +88,47 @@ K.loop(2, var="i", invariant=[
     "forall(t, 0 <= t < i, implies(isnan(inputs[t]), residuals[t] == 0))"])
 K.loop(3, var="k", unroll=10)
 K.loop(4, var="k", unroll=10)
+
+# ====================================================================================== c_crps.c (C05 safety; C03)
+F = cfile("src/hydrodiy/stat/c_crps.c")
+K = F.kernel("c_crps")
+K.requires("nval >= 0 and nval <= 2**15 and ncol >= 1 and ncol <= 2**15")
+K.requires("valid(obs, nval) and valid(sim, nval*ncol) and valid(reliability_table, (ncol+1)*7) and valid(crps_decompos, 5)")
+K.requires("implies(use_weights == 1, valid(weights_vector, nval))")
+K.requires("separated(obs, sim, weights_vector, reliability_table, crps_decompos)")
+K.assigns("reliability_table[0:(ncol+1)*7]", "crps_decompos[0:5]")
+K.loop(0, var="j", invariant=["0 <= j and j <= ncol + 1"])
+K.loop(1, var="i", invariant=["0 <= i and i <= nval"])
+K.loop(2, var="j", invariant=["0 <= i and i < nval and 0 <= j and j <= ncol"])
+K.loop(3, var="j", invariant=["0 <= i and i < nval and 0 <= j and (j <= ncol - 1 or ncol < 1)"])
+K.loop(4, var="k", invariant=["0 <= i and i < nval and 0 <= k and k <= i"])
+K.loop(5, var="j", invariant=["0 <= j and j <= ncol + 1"])
+
+# ====================================================================================== c_dscore.c (C05 safety; C10)
+F = cfile("src/hydrodiy/stat/c_dscore.c")
+K = F.kernel("c_ensrank")
+K.requires("nval <= 2**15 and ncol <= 2**14 and nval >= -2**15 and ncol >= -2**14")
+K.requires("implies(nval >= 1 and ncol >= 1, valid(sim, nval*ncol) and valid(fmat, nval*nval) and valid(ranks, nval))")
+K.requires("separated(sim, fmat, ranks)")
+K.assigns("fmat[0:nval*nval]", "ranks[0:nval]")
+K.loop(0, var="j", invariant=["nval >= 1 and ncol >= 1 and 0 <= j and j <= ninit and (ninit == nval or ninit == 2*ncol) and ninit >= nval and ninit >= 2*ncol"])
+K.loop(1, var="i1", invariant=["nval >= 1 and ncol >= 1 and 0 <= i1 and i1 <= nval"])
+K.loop(2, var="i2", invariant=["nval >= 1 and ncol >= 1 and 0 <= i1 and i1 < nval and i1 + 1 <= i2 and i2 <= nval"])
+K.loop(3, var="j", invariant=["nval >= 1 and ncol >= 1 and 0 <= i1 and i1 < i2 and i2 < nval and 0 <= j and j <= 2*ncol"])
+K.loop(4, var="j", invariant=["nval >= 1 and ncol >= 1 and 0 <= i1 and i1 < i2 and i2 < nval and 0 <= j and j <= 2*ncol"])
+
+# ====================================================================================== AnDarl.c, c_andersondarling.c (C05 safety; C10)
+A = cfile("src/hydrodiy/stat/AnDarl.c")
+K = A.kernel("adinf")
+K = A.kernel("AD")
+K = A.kernel("ADtest")
+K.requires("n >= 0 and n <= 2**30 and valid(x, n) and valid(outputs, 2) and separated(x, outputs)")
+K.assigns("outputs[0:2]")
+# data outside [0, 1] (NaN included) are rejected
+K.behavior("rejected", "exists(q, 0 <= q < n, isnan(x[q]) or x[q] < 0 or x[q] > 1)", "result > 0", props=["C10"])
+K.loop(0, var="i", invariant=["0 <= i and i <= n", "forall(q, 0 <= q < i, not isnan(x[q]) and x[q] >= 0 and x[q] <= 1)"])
+F = cfile("src/hydrodiy/stat/c_andersondarling.c")
+F.use(A)
+K = F.kernel("c_ad_test")
+K.requires("nval >= 0 and nval <= 2**30 and valid(unifdata, nval) and valid(outputs, 2) and separated(unifdata, outputs)")
+K.assigns("unifdata[0:nval]", "outputs[0:2]")      # C18: the sample is sorted in place
